@@ -148,7 +148,11 @@ func c13Broken(s *scen.Scenario, r *rand.Rand) *c13Scen {
 		{Name: "match", Args: []string{"bogus"}},
 		{Name: "map"},
 		{Name: "skip", Args: []string{"/(unclosed/"}},
-	}[r.Intn(5)]
+		// unknown or misplaced notations: accepted with a log/warning only - their diagnostics must be
+		// as deterministic as everything else (names close to documented families on purpose)
+		{Name: "getter:on"}, {Name: "case:on"}, {Name: "stringer:on"}, {Name: "typecast:on"}, {Name: "conv:foo", Args: []string{"f", "X"}},
+		{Name: "skip:all"}, {Name: "style:arg"}, {Name: "convergen"}, {Name: "tag", Args: []string{"json"}}, {Name: "nosuchnotation13", Args: []string{"a", "b"}},
+	}[r.Intn(15)]
 	for i, m := range s.Ifaces[0].Methods {
 		mc := *m
 		if i == k {
